@@ -1,20 +1,31 @@
-// Prelude of unit `csvstore` (C13, storage side of the CSV backend; model I: no float reasoning).
+// Prelude of unit `csvstore` (C13, storage side of the CSV backend; no float reasoning).
 // Everything the extracted code of src/storage/csv.rs calls but that is not extracted.
 // EVERY contract below is an ASSUMPTION of this unit; none is proved by another unit.
 // Ids for DESIGN section 6 / 11.7:
-//   A-io-outcome   std::io::BufWriter<File>: `write_fmt` (through `writeln!`) and `flush` have an ARBITRARY
-//                  outcome (Ok or Err) -- a stub never promises success.  The facade only keeps a ghost
-//                  record of what happened:  faults()  = number of write/flush calls on this writer that returned Err,
-//                  flushed() = the buffer is empty because the last operation was a successful flush,
-//                  next_flush_ok() = outcome oracle: "a flush started in THIS state returns Ok".
+//   A-io-outcome   std::io::BufWriter<File>: `write_fmt` (through `writeln!`) and `flush`, `fs::create_dir_all`,
+//                  `File::create` have an ARBITRARY outcome (Ok or Err) -- a stub never promises success.  The
+//                  facade only keeps a ghost record of what happened:
+//                    faults()        = number of write/flush calls on this writer that returned Err,
+//                    flushed()       = the buffer is empty because the last operation was a successful flush,
+//                    next_flush_ok() = outcome oracle: "a flush started in THIS state returns Ok"
+//                  (likewise Path::create_dir_ok, File::create_ok).
 //   A-io-drop      dropping a BufWriter flushes but discards the I/O error (std docs): an explicit
 //                  `drop(w)` therefore demands `w.flushed()`; implicit drops are invisible to Verus and are
-//                  covered by the postcondition of `finalize` (see lemmas.rs `fin_post`).
-//   A-anyhow       `?` / `.context(..)` keep Ok as Ok and Err as Err (message text not modelled, R5)
+//                  covered by the postcondition of `finalize` (lemmas.rs `fin_post`).
+//   A-anyhow       `?` / `.context(..)` / `.with_context(..)` keep Ok as Ok and Err as Err (message text not
+//                  modelled)
 //   A-fmt          string formatting (`format!`, `to_string`, `join`) neither fails nor panics EXCEPT for a
 //                  run-time precision above u16::MAX (`vx_format_prec`); the text is not modelled; the
 //                  arguments of `writeln!` after the writer are dropped by R5 `@first`
 //   A-float-class  f64/f32 `is_nan` / `is_infinite` are total (no contract)
+//   A-csv-lookup   the lookup scaffolding `xs.iter().map(f).collect::<HashMap<..>>()` / `.get(k)` of
+//                  write_sample_row (facade at the end of this file)
+// Call-site assumptions (stated as preconditions of record_sample, lemmas.rs `rs_pre`):
+//   A-csv-values   no DateTime64 / TimeDelta64 value is handed to the CSV backend
+//   A-csv-precision (model I only) the configured precision is at most u16::MAX
+// Rewrites used (unit.json): R4.mutself (finalize), R5 `writeln: @first`, `panic: @noargs`, R9.method
+// `iter -> vx_iter`, R12.typemap `HashMap<&str, &Option<Value>> -> VxLookup`, R13.closurepat
+// (`|(k, v)| e` -> `|vx_cp0| { let (k, v) = vx_cp0; e }`), R1.closure contracts on 4 closures.
 use core::marker::PhantomData;
 use vstd::std_specs::convert::*;
 
